@@ -52,3 +52,11 @@ Definition exit_ok (defer_guard : bool) (e : exit_path) : bool :=
   if e_after_lock e then
     (e_success e && e_opened_set e) || (negb (e_success e) && negb (e_opened_set e) && defer_guard)
   else negb (e_success e).
+
+(* ---- the exit paths of Close, as extracted from the source (gen/GenOpenPaths.v) ---------------- *)
+Record close_exit := mkCExit {
+  ce_line : N;            (* source line of the return statement *)
+  ce_released : bool;     (* the release of the directory lock is guaranteed on this path: a deferred
+                             function registered before it calls fileLock.Unlock, or an explicit
+                             fileLock.Unlock() precedes it in an enclosing block *)
+}.
